@@ -610,3 +610,78 @@ with amb (fuel : nat) (t : str) : sres :=
 
 Definition spec_fuel (w : str) : nat := S (S (2 * length w)).
 Definition spec (w : str) : sres := bexp (spec_fuel w) w.
+
+(* ------------------------------------------------------------------ known-finding class KF-C16-1, Coq twin of the
+   harness feature "skippedClose": while looking for the '}' of some '{', bash passes over a level-0 '}' because no
+   level-0 ',' or ".." has been seen yet *)
+Fixpoint gobble_skips (level commas : nat) (t : str) : bool :=
+  match t with
+  | [] => false
+  | c :: rest =>
+      if c =? BS then match rest with [] => false | _ :: rest' => gobble_skips level commas rest' end
+      else if (c =? RB) && Nat.eqb level 0 then
+        (if Nat.ltb 0 commas then false else true)
+      else
+        let lc :=
+          if c =? LB then (S level, commas)
+          else if (c =? RB) && Nat.ltb 0 level then (Nat.pred level, commas)
+          else if (c =? COMMA) && Nat.eqb level 0 then (level, S commas)
+          else if Nat.eqb level 0 && starts_dotdot t && negb (third_is RB t) then (level, S commas)
+          else (level, commas) in
+        gobble_skips (fst lc) (snd lc) rest
+  end.
+
+Fixpoint find_brace_skips (fuel : nat) (at0 : bool) (t : str) : bool :=
+  match fuel with
+  | O => false
+  | S f =>
+      match gobble LB 0 1 at0 t with
+      | None => false
+      | Some (_, after) =>
+          gobble_skips 0 0 after
+          || match find_close after with Some _ => false | None => find_brace_skips f false after end
+      end
+  end.
+
+Fixpoint bexp_skips (fuel : nat) (t : str) : bool :=
+  match fuel with
+  | O => false
+  | S f =>
+      find_brace_skips (S (length t)) true t
+      || match find_brace (S (length t)) true [] t with
+         | None => false
+         | Some (_, amble, post) =>
+             (if flat_comma amble then amb_skips f amble else false)
+             || match post with [] => false | _ => bexp_skips f post end
+         end
+  end
+with amb_skips (fuel : nat) (t : str) : bool :=
+  match fuel with
+  | O => false
+  | S f =>
+      match gobble COMMA 0 1 false t with
+      | None => bexp_skips f t
+      | Some (piece, rest) => bexp_skips f piece || amb_skips f rest
+      end
+  end.
+
+Definition skipped_close (w : str) : bool := bexp_skips (spec_fuel w) w.
+
+(* comparison of the implementation's answer with the Spec's *)
+Definition to_sres (r : res (list str)) : sres :=
+  match r with Ok l => Words l | Err _ => Many | Panic => Words [] end.
+Fixpoint strs_eqb (a b : list str) : bool :=
+  match a, b with
+  | [], [] => true
+  | x :: a', y :: b' => str_eqb x y && strs_eqb a' b'
+  | _, _ => false
+  end.
+Definition sres_eqb (a b : sres) : bool :=
+  match a, b with Many, Many => true | Words x, Words y => strs_eqb x y | _, _ => false end.
+
+(* all words of length n over an alphabet *)
+Fixpoint all_words (alpha : list N) (n : nat) : list str :=
+  match n with
+  | O => [[]]
+  | S n' => flat_map (fun w => map (fun c => c :: w) alpha) (all_words alpha n')
+  end.
